@@ -1756,6 +1756,8 @@ fn generate(a: &Args) -> i32 {
         }
     }
 
+    enum_family(&mut sink, &mut o);
+
     // the recorded witnesses of the findings, every run
     for (text, _) in [("%YAML 1.2", ()), ("# c", ()), ("%日本語 x\n---\na", ())] { damaged(&mut sink, &mut o, &mut conv_budget, &mut rng, text); }
 
@@ -1769,6 +1771,64 @@ fn generate(a: &Args) -> i32 {
         "rule": "documents rendered by this module (it records the character offset and source text of every node): untyped trees whose every node is Spanned, the fixed derived family RA (Spanned<i32/String/bool/f64/u8/char/Option/Vec/struct> fields, cross-checked against the run-time seeds) and random typed targets; multi-byte characters in scalars, keys, anchors and comments; LF / CRLF / CR line breaks (uniform and mixed), tabs as separators and before comments, trailing and whole-line comments, flow and block layout, literal blocks, anchors, aliases (also inside anchored containers), merge keys (alias, inline mapping, sequence of sources, nested merges), leading BOM, with and without a final line break; every sampled leaf in turn replaced by a mismatching scalar or a container; damaged copies of the texts (truncated, one character deleted / inserted / replaced / swapped) for the error locations. Differential: posOf over the real parser's marks, the end-of-stream mark, location_from_span / from_scan_error through the hook on real and synthetic marks around the u32 boundary, and the span-carrying deserialization (value with both locations at every wrapper, or error kind with both locations) against the Lean model run on the real parser's items. Oracle (implementation only): coordinates of every reported location recomputed from the text; referenced / defined of every wrapper against the generator's positions; byte range against the node's source text; locations() of a provoked type error against the uses of the damaged leaf. Non-trivial = distinct (type, item stream) with more than 6 events and at least one span-carrying value or located error.",
     }));
     0
+}
+
+// ---- enum payloads: a span-carrying value / a type error inside the payload of a variant (every notation: `{V: p}`
+// flow and block, `!V p`; newtype, tuple, struct variants), directly and through an alias, must name the alias token
+// as use site and the anchored node as definition site (implementation-only oracle on fixed derived types)
+#[derive(Debug, Deserialize)]
+#[allow(dead_code)]
+enum Sh { Circle(Spanned<u32>), Pair(Spanned<u32>, Spanned<u32>), Rec { w: Spanned<u32> } }
+#[derive(Debug, Deserialize)]
+#[allow(dead_code)]
+struct EnumDoc { r: serde::de::IgnoredAny, s: Sh }
+
+fn enum_family(sink: &mut Sink, o: &mut Oracle) {
+    // (document template with {P} for the anchored payload, how the variant uses `*r`)
+    let forms: [(&str, &str); 12] = [
+        ("newtype/flow-map", "r: &r {P}\ns: {Circle: *r}\n"), ("newtype/block-map", "r: &r {P}\ns:\n  Circle: *r\n"),
+        ("newtype/block-map-crlf", "r: &r {P}\r\ns:\r\n  Circle: *r\r\n"), ("newtype/tagged", "r: &r !Circle {P}\ns: *r\n"),
+        ("tuple/flow", "r: &r {P}\ns: {Pair: [1, *r]}\n"), ("tuple/block", "r: &r {P}\ns:\n  Pair:\n    - *r\n    - 2\n"),
+        ("struct/flow", "r: &r {P}\ns: {Rec: {w: *r}}\n"), ("struct/block", "r: &r {P}\ns:\n  Rec:\n    w: *r\n"),
+        ("newtype/direct-flow", "r: 0\ns: {Circle: {P}}\n"), ("newtype/direct-block", "r: 0\ns:\n  Circle: {P}\n"),
+        ("struct/direct", "r: 0\ns: {Rec: {w: {P}}}\n"), ("newtype/multibyte", "r: &r {P} # é\ns: {Circle: *r} # ü\n"),
+    ];
+    let off = |l: &Location| l.span().offset() as usize;
+    for (name, tpl) in forms {
+        for (payload, good) in [("57", true), ("oops", false), ("-1", false), ("[1]", false)] {
+            let text = tpl.replace("{P}", payload);
+            // character offsets (the locations count characters)
+            let cpos = |needle: &str| text.find(needle).map(|b| text[..b].chars().count());
+            let def = cpos(payload).unwrap();
+            let (want_ref, want_def) = match cpos("*r") { Some(a) => (a, def), None => (def, def) };
+            let r = std::panic::catch_unwind(|| serde_saphyr::from_str::<EnumDoc>(&text));
+            sink.count(&format!("enumsp.{name}.{}", if good { "value" } else { "type_error" }));
+            match r {
+                Err(_) => o.fail("C16-panic", "panic", &text, "panic".into(), "no panic".into()),
+                Ok(Ok(d)) => {
+                    if !good { o.fail("C16-enum-payload", &format!("{name}: mismatching payload accepted"), &text, format!("{d:?}"), "a type error".into()); continue; }
+                    let sp = match &d.s { Sh::Circle(x) => x, Sh::Pair(a, b) => if cpos("[1, *r]").is_some() { b } else { a }, Sh::Rec { w } => w };
+                    if off(&sp.referenced) != want_ref || off(&sp.defined) != want_def {
+                        o.fail("C16-enum-payload-spanned", &format!("{name}: span-carrying payload of a variant"), &text,
+                               format!("referenced offset {} defined offset {}", off(&sp.referenced), off(&sp.defined)), format!("referenced offset {want_ref} defined offset {want_def}"));
+                    }
+                }
+                Ok(Err(e)) => {
+                    if good { o.fail("C16-enum-payload", &format!("{name}: matching payload rejected"), &text, err_tok(&e), "a value".into()); continue; }
+                    if payload == "[1]" && name.starts_with("newtype/tagged") { continue; }   // a tagged sequence is a tuple-variant payload: another error site
+                    match e.locations() {
+                        None => o.fail("C16-error-unlocated", &format!("{name}: type error inside a variant payload carries no location"), &text, err_tok(&e), "a location".into()),
+                        Some(ls) => {
+                            if off(&ls.reference_location) != want_ref || off(&ls.defined_location) != want_def {
+                                o.fail("C16-enum-payload-error", &format!("{name}: a type error at the payload of a variant is not reported where a span-carrying value at that node is"), &text,
+                                       format!("referenced offset {} defined offset {}", off(&ls.reference_location), off(&ls.defined_location)), format!("referenced offset {want_ref} defined offset {want_def}"));
+                            }
+                        }
+                    }
+                }
+            }
+        }
+    }
 }
 
 #[allow(clippy::too_many_arguments)]
